@@ -6,7 +6,8 @@ use crate::hast::{H, hb};
 use crate::props::c08::map_h;
 use crate::util::Rng;
 
-pub const KINDS: [&str; 17] = [
+pub const KINDS: [&str; 18] = [
+    "decoy-trap",
     "reference-group-definition",
     "literal-kind",
     "drop-argument",
@@ -25,6 +26,32 @@ pub const KINDS: [&str; 17] = [
     "comparison-for-arithmetic",
     "replace-body",
 ];
+
+// A value of the wrong ground type whose annotation goes through aliases of its own group, with
+// unused aliases of the expected type placed among them: rejected by a checker that keeps the
+// members of a group apart.
+fn decoy_trap(expected_int: bool, r: &mut Rng) -> H {
+    let (wrong_value, other, expected) = if expected_int { (if r.chance(1, 2) { H::True } else { H::False }, H::Bool, H::Int) } else { (H::lit(r.below(9) as i64), H::Int, H::Bool) };
+    // fully annotated: a perturbed explicit program stays explicit
+    let ty = |_: &mut Rng| Some(hb(H::Type));
+    let mut defs: Vec<(String, Option<Box<H>>, H)> = vec![("trapv".into(), Some(hb(H::var("trapt0"))), wrong_value)];
+    if r.chance(1, 2) {
+        defs.push(("trapt0".into(), ty(r), H::var("trapt1")));
+        defs.push(("trapt1".into(), ty(r), other));
+    } else {
+        defs.push(("trapt1".into(), ty(r), other));
+        defs.push(("trapt0".into(), ty(r), H::var("trapt1")));
+    }
+    for i in 0..1 + r.usize(2) {
+        let at = r.usize(defs.len() + 1);
+        defs.insert(at, (format!("trapd{i}"), ty(r), expected.clone()));
+    }
+    let mut h = H::var("trapv");
+    for (n, a, d) in defs.into_iter().rev() {
+        h = H::Let(n, a, hb(d), hb(h));
+    }
+    H::Paren(hb(h))
+}
 
 fn count_nodes(h: &H) -> usize {
     let mut n = 0;
@@ -123,6 +150,7 @@ pub fn perturb(h: &H, r: &mut Rng) -> Option<(H, &'static str)> {
         let mut done = false;
         let w = wrong(r);
         let coin = r.chance(1, 2);
+        let (trap_int, trap_bool) = if kind == "decoy-trap" { (decoy_trap(true, r), decoy_trap(false, r)) } else { (H::Int, H::Int) };
         let out = map_h(h, &mut |x| {
             let here = k == target;
             k += 1;
@@ -130,6 +158,8 @@ pub fn perturb(h: &H, r: &mut Rng) -> Option<(H, &'static str)> {
                 return None;
             }
             let res = match (kind, x) {
+                ("decoy-trap", H::Lit(_)) => Some(trap_int.clone()),
+                ("decoy-trap", H::True | H::False) => Some(trap_bool.clone()),
                 ("literal-kind", H::Lit(_)) => Some(if coin { H::True } else { H::Type }),
                 ("literal-kind", H::True | H::False) => Some(H::lit(3)),
                 ("drop-argument", H::App(f, _)) => Some((**f).clone()),
